@@ -398,11 +398,14 @@ protected:
             std::visit([&](auto &x){
                using T = std::decay_t<decltype(x)>;
                if constexpr(std::is_same_v<T, promise>) {
+                   //resolve without the lock: a handler which runs inline can call the scheduler
+                   lk.unlock();
                    if constexpr(have_pool) {
                        pool->resume(x());
                    } else {
                        x();
                    }
+                   lk.lock();
                } else {
                    if constexpr(have_pool) {
                        if (!pool->any_enqueued() && coro_queue::can_block()) {
